@@ -225,7 +225,7 @@ static void ProcessFile(char const* FileName, LongWord Offset) {
             }
 
             NextPos = ftell(SrcFile) + InpLen;
-            if (NextPos >= FileSize(SrcFile) - 1) {
+            if (NextPos >= FileSize(SrcFile)) {
                 FormatError(FileName, getmessage(Num_FormatInvRecordLenMsg));
             }
 
